@@ -73,7 +73,7 @@ var probes = map[string][]string{
 	"C13": {"context_switches", "points.read", "points.write", "points.cb", "points.map", "ops.Sanitize", "ops.SanitizeBytes",
 		"ops.SanitizeReader", "ops.SanitizeReaderToWriter", "ops_with_fault", "map_order.canonical", "map_order.reversed", "map_order.random",
 		"callbacks", "map_site_visits_ge2keys.*", "map_site_perms.*"},
-	"C17": {"check.interleave", "check.isolation", "check.order", "check.case", "check.recent", "check.reuse", "recent_calls_dropped", "instance_switches", "sanitize_between_builder_calls"},
+	"C17": {"check.interleave", "check.isolation", "check.order", "check.case", "check.recent", "check.reuse", "check.split", "recent_calls_dropped", "instance_switches", "sanitize_between_builder_calls"},
 }
 
 var thoroughOnlyProbes = map[string]bool{"rfault_pos.buffer-boundary": true}
